@@ -15,9 +15,10 @@ from ..terms import Leaf, Null, Bin, valida
 from .c09 import IMPORTS
 
 PROP = "C14"
-THEOREMS = ["C14_value_eq_refl", "C14_value_eq_sym", "C14_value_eq_trans", "C14_condition_refl", "C14_condition_sym", "C14_condition_trans", "C14_condition_commute", "C14_path_equiv_refl", "C14_path_equiv_sym", "C14_path_equiv_trans", "C14_rule_equiv_refl", "C14_rule_equiv_sym", "C14_rule_equiv_trans", "C14_schema_equiv_refl", "C14_rebuilt_copies_equal", "C14_commuted_same_behaviour", "C14_commuted_same_fields", "C14_same_definition_same_filter", "C14_same_definition_equal", "C14_same_definition_same_verdict", "C14_same_definition_same_selection", "C14_eq_callables_see_only_equality"]
+THEOREMS = ["C14_value_eq_refl", "C14_value_eq_sym", "C14_value_eq_trans", "C14_condition_refl", "C14_condition_sym", "C14_condition_trans", "C14_condition_commute", "C14_path_equiv_refl", "C14_path_equiv_sym", "C14_path_equiv_trans", "C14_rule_equiv_refl", "C14_rule_equiv_sym", "C14_rule_equiv_trans", "C14_schema_equiv_refl", "C14_rebuilt_copies_equal", "C14_commuted_same_behaviour", "C14_commuted_same_fields", "C14_same_definition_same_filter", "C14_same_definition_equal", "C14_same_definition_same_verdict", "C14_same_definition_same_selection", "C14_eq_callables_see_only_equality",
+            "C14_nested_refl", "C14_nested_sym", "C14_nested_trans", "C14_nested_commute"]
 FACT_LEMMAS = []
-DEPENDS = ["Eq.v", "Proofs/C14Proof.v", "Proofs/C14BehProof.v", "Proofs/PyFacts.v", "Proofs/Tie.v", "Proofs/C04Proof.v", "Properties/C14.v", "Py.v", "Rule.v", "Path.v", "Cond.v", "Dsl.v", "Inst.v", "RunSpec.v", "Gen/TablesGen.v", "Gen/CallablesGen.v", "Gen/SpecGen.v", "Spec.v", "SpecIO.v"]
+DEPENDS = ["Eq.v", "Proofs/C14Proof.v", "Proofs/C14BehProof.v", "Proofs/PyFacts.v", "Proofs/Tie.v", "Proofs/C04Proof.v", "Properties/C14.v", "Py.v", "Rule.v", "Path.v", "Cond.v", "Dsl.v", "Inst.v", "RunSpec.v", "Gen/TablesGen.v", "Gen/CallablesGen.v", "Gen/SpecGen.v", "Spec.v", "SpecIO.v", "NestedArgs.v", "NestedIO.v", "RunNestedEq.v", "Proofs/C14NestedProof.v"]
 ASSUMPTIONS = ["Layer P models CPython's operators (pysem)"]
 
 SWAPS = [(1, 1.0), (1, True), (1.0, True), (0, False), (0, 0.0), (2, 2.0), ("a", "b"), (1, 2), ("1", 1), (None, 0), ([1], (1,))]
@@ -357,6 +358,64 @@ def run(tier, seed, model_ok, spec_ok, replay=None):
             except Exception:
                 pass
     k_bad, o_bad, nk, no, err = run_passes("c14", IMPORTS, cases, model_ok, spec_ok)
+    # conditions with data paths nested in a list / tuple / mapping argument: == of two separately built objects (NestedIO.condn_eqb)
+    from ..nestedgen import nested_tree, NESTED_IMPORTS
+    from .c17 import enc_narg
+    ncases = []
+    for _ in range(150 if tier == "quick" else 4000):
+        doc = g.document(3, 4)
+        ta = nested_tree(g, pg, doc, tuple_p=0.15)
+        tb = copy.deepcopy(ta)
+        k = g.r.random()
+        what = "rebuilt"
+        if k < 0.25:
+            l = g.r.choice(tb.leaves())
+            a0 = l.args[0] if l.args else None
+            if isinstance(a0, (list, tuple)) and a0:
+                l.args[0] = tuple(a0) if isinstance(a0, list) else list(a0)
+                what = "list<->tuple"
+        elif k < 0.45:
+            l = g.r.choice(tb.leaves())
+            a0 = l.args[0] if l.args else None
+            if isinstance(a0, list) and len(a0) > 1:
+                l.args[0] = list(reversed(a0))
+                what = "items-reversed"
+            elif isinstance(a0, dict) and len(a0) > 1:
+                l.args[0] = dict(reversed(list(a0.items())))
+                what = "entries-reversed"
+        elif k < 0.6 and isinstance(tb, Bin):
+            tb.a, tb.b = tb.b, tb.a
+            what = "commuted-top"
+        try:
+            xa, xb = ta.build(), tb.build()
+        except Exception:
+            continue
+        o = E.run_outcome(lambda: bool(xa == xb))
+        o2 = E.run_outcome(lambda: bool(xb == xa))
+        dist[f"nested:{what}:{'eq' if o == ('ok', True) else 'ne'}"] += 1
+        if o != o2:
+            viol.append({"kind": "nested", "what_failed": f"not symmetric: {o} vs {o2}", "x": ta.descr()[:300], "y": tb.descr()[:300]})
+        if what in ("rebuilt", "commuted-top", "entries-reversed") and o != ("ok", True):
+            viol.append({"kind": "nested", "what_failed": f"{what}: separately built objects of one definition are not equal", "x": ta.descr()[:300], "y": tb.descr()[:300]})
+        if o == ("ok", True):
+            for d in (doc, g.document(2, 3)):
+                ra = E.run_outcome(lambda: list(xa.filter(copy_value(d), source_data=copy_value(d)).result))
+                rb = E.run_outcome(lambda: list(xb.filter(copy_value(d), source_data=copy_value(d)).result))
+                if ra != rb:
+                    viol.append({"kind": "nested", "what_failed": "equal objects behave differently", "flags": [], "x": ta.descr()[:300], "y": tb.descr()[:300], "doc": jval(d)})
+                    break
+        try:
+            model = f"(run_condn_eq {ta.coq(enc_narg(Tags()))} {tb.coq(enc_narg(Tags()))})"
+            if len(model) < 9000:
+                ncases.append(Case({"kind": "nested", "variant": what, "x": ta.descr()[:300], "y": tb.descr()[:300], "impl": repr(o), "coq": model[:9000]},
+                                   model, None, E.enc_res(o), o, o == ("ok", True), key=("nested", ta.descr()[:200], tb.descr()[:200])))
+        except (E.Unencodable, Exception):
+            pass
+    nk_bad, _, nnk, _, nerr = run_passes("c14n", NESTED_IMPORTS, ncases, model_ok, False)
+    k_bad = k_bad + [len(cases) + i for i in nk_bad]
+    cases = cases + ncases
+    nk += nnk
+    err = err or nerr
     total = sum(dist.values())
     res = {"evaluations": total, "k_cases": nk, "o_cases": total,
            "nontrivial": len({c.key for c in cases if c.nontrivial}),
